@@ -29,15 +29,17 @@ def translate(chk):
 
 def boxes(rng, tier):
     bs = []
-    combos = [("spline", 1.0, "var"), ("dct", 1.0, "var"), ("spline", -1.0, "var"), ("dct", -1.0, "var"), ("spline", 1.0, "const")]
+    combos = [("spline", 1.0, "var", {}), ("dct", 1.0, "var", {}), ("spline", -1.0, "var", {}), ("dct", -1.0, "var", {}), ("spline", 1.0, "const", {}),
+              # the sign / unit options act before the interpolants are built: every derivative relation must hold with them too
+              ("spline", 1.0, "var", {"reverse_Bt": True}), ("dct", -1.0, "var", {"reverse_Bt": True, "reverse_current": True}), ("spline", -1.0, "var", {"psi_divide_twopi": True})]
     shapes = [(1.0, 2.0, -0.7, 0.7, 41, 45), (1.0, 2.0, -1.2, 1.2, 49, 41), (0.2, 1.0, -1.5, 1.5, 33, 65)]
     if tier == "quick":
-        shapes = shapes[:2]
+        shapes = [shapes[0], shapes[2]]      # incl. the tall box with Zmax > Rmax
     for (rmin, rmax, zmin, zmax, nr, nz) in shapes:
-        for method, sign, fpol in combos:
+        for method, sign, fpol, opts in combos:
             pts = [(rng.uniform(rmin + 0.15 * (rmax - rmin), rmax - 0.15 * (rmax - rmin)), rng.uniform(zmin + 0.15 * (zmax - zmin), zmax - 0.15 * (zmax - zmin))) for _ in range(14)]
             bs.append(dict(rmin=rmin, rmax=rmax, zmin=zmin, zmax=zmax, nr=nr, nz=nz, rc=0.5 * (rmin + rmax) + 0.03, zc=0.5 * (zmin + zmax) - 0.05,
-                           w=0.45 * min(rmax - rmin, zmax - zmin), tilt=0.6, elong=1.5, sign=sign, method=method, fpol=fpol, points=pts))
+                           w=0.45 * min(rmax - rmin, zmax - zmin), tilt=0.6, elong=1.5, sign=sign, method=method, fpol=fpol, options=opts, points=pts))
     return bs
 
 
@@ -74,8 +76,8 @@ def field_oracle(chk, tr):
     n = nval = 0
     worst = {}
     for b, r in zip(bs, res):
-        tag = f"{b['method']}:sign={int(b['sign']):+d}:fpol={b['fpol']}"
-        where = {"box": {k: b[k] for k in ("rmin", "rmax", "zmin", "zmax", "nr", "nz", "method", "sign", "fpol")}}
+        tag = f"{b['method']}:sign={int(b['sign']):+d}:fpol={b['fpol']}" + "".join(f":{k}" for k in sorted(b.get("options", {})))
+        where = {"box": {k: b[k] for k in ("rmin", "rmax", "zmin", "zmax", "nr", "nz", "method", "sign", "fpol", "options")}}
         if "error" in r:
             chk.tie_broken("impl/fields.py:box", f"{tag}: {r['error']} {r.get('tb', '')[-300:]}")
             continue
